@@ -18,6 +18,7 @@ Open Scope string_scope.
 
 Definition tyname := string.
 Definition loc := nat.
+Bind Scope nat_scope with loc.
 
 (* ---- shapes *)
 Inductive ty :=
@@ -425,3 +426,21 @@ Fixpoint val_eqb (a b : val) {struct a} : bool :=
 
 (* labels of a value that are old, i.e. memory of the original that the copy still reaches *)
 Definition shared_with_original (next : loc) (copy : val) : list loc := filter (fun l => Nat.ltb l next) (locs copy).
+
+(* What the correspondence check compares: for every node of a copy, whether its memory is fresh (0) or WHICH location of the
+   original it is (S l).  Zero-size allocations (empty slices, pointers to empty structs / arrays) carry no mutable memory and
+   the Go runtime gives them all the same address, so their identity is not observable: their label is masked. *)
+Definition zero_size (v : val) : bool :=
+  match v with VStruct [] | VArr [] => true | _ => false end.
+
+Fixpoint mask (next : loc) (v : val) : val :=
+  let m (l : loc) : loc := if Nat.ltb l next then S l else 0 in
+  match v with
+  | VPtr l v0 => VPtr (if zero_size v0 then 0 else m l) (mask next v0)
+  | VSlice l vs => VSlice (match vs with [] => 0 | _ => m l end) (map (mask next) vs)
+  | VArr vs => VArr (map (mask next) vs)
+  | VMap l kvs => VMap (m l) (map (fun kv => match kv with (a, b) => (mask next a, mask next b) end) kvs)
+  | VStruct fs => VStruct (map (mask next) fs)
+  | VIface n v0 => VIface n (mask next v0)
+  | _ => v
+  end.
